@@ -458,6 +458,67 @@ func init() {
 			}
 			c.Check(n >= 2, "write-steps", c.P.Pos(fn.Pos()), fmt.Sprintf("%d step(s)", n), "packetize / sendPayloadData calls not found in WriteSCTP")
 		}})
+
+	register(&Rule{ID: "C20.R5", Props: []string{"C20", "C18"}, Engine: "E2",
+		Title:   "readers are woken with Broadcast, never Signal: several goroutines may be blocked in Read on one stream, and one event (a gap filled, a skip, a deadline, a teardown) can concern all of them — Signal wakes one and leaves the others asleep on a readable queue or past their deadline",
+		MinInst: 6,
+		Run: func(c *RuleCtx) {
+			rn := c.field("Stream", "readNotifier")
+			nB := 0
+			ks := keyer{}
+			for _, fn := range c.P.Funcs {
+				forEachInstr(fn, func(in ssa.Instruction) {
+					ci, ok := in.(ssa.CallInstruction)
+					if !ok {
+						return
+					}
+					sc := ci.Common().StaticCallee()
+					if sc == nil || len(ci.Common().Args) == 0 || !IsLoadOf(rn)(ci.Common().Args[0]) {
+						return
+					}
+					switch sc.Name() {
+					case "Broadcast":
+						nB++
+						c.Ok(ks.key("wakes-all-readers@"+c.P.FuncName(enclosingNamed(fn))), c.Pos(in), "Broadcast")
+					case "Signal":
+						c.Fail(ks.key("wakes-all-readers@"+c.P.FuncName(enclosingNamed(fn))), c.Pos(in), "readNotifier.Signal() wakes a single reader: with several goroutines blocked in Read the others miss the event")
+					}
+				})
+			}
+			c.Check(nB >= 6, "wake-up-sites", "", fmt.Sprintf("%d Broadcast site(s)", nB), "fewer wake-up sites than reviewed")
+		}})
+
+	register(&Rule{ID: "C09.R13", Props: []string{"C09"}, Engine: "E3",
+		Title:   "teardown stops a pending read-deadline timer: Association.unregisterStream closes Stream.readTimeoutCancel whenever it is set (under no other condition), so the goroutine and timer started by SetReadDeadline do not outlive the stream",
+		MinInst: 1,
+		Run: func(c *RuleCtx) {
+			fn := c.Fn("Association.unregisterStream")
+			rc := c.field("Stream", "readTimeoutCancel")
+			n := 0
+			ks := keyer{}
+			for _, g := range c.P.Region(fn) {
+				forEachInstr(g, func(in ssa.Instruction) {
+					ci, isCall := in.(ssa.CallInstruction)
+					if !isCall {
+						return
+					}
+					b, isB := ci.Common().Value.(*ssa.Builtin)
+					if !isB || b.Name() != "close" || !IsLoadOf(rc)(ci.Common().Args[0]) {
+						return
+					}
+					n++
+					var extra []string
+					for _, ft := range localFactsUpTo(in, fn) {
+						if bo, ok := ft.Cond.(*ssa.BinOp); ok && (IsLoadOf(rc)(bo.X) || IsLoadOf(rc)(bo.Y)) {
+							continue
+						}
+						extra = append(extra, shortValue(c.P, ft.Cond))
+					}
+					c.Check(len(extra) == 0, ks.key("deadline-timer-stopped-on-teardown"), c.Pos(in), "closed whenever set", "the deadline timer is stopped only under a further condition")
+				})
+			}
+			c.Check(n >= 1, "teardown-stops-deadline-timer", c.P.Pos(fn.Pos()), fmt.Sprintf("%d close site(s)", n), "unregisterStream does not stop a pending read-deadline timer: its goroutine lives until the deadline")
+		}})
 }
 
 // resolveParamIs: v is (after following private-helper parameters) parameter #idx of fn.
